@@ -23,6 +23,8 @@ func deadlineFor(tier string) time.Duration {
 // follow-up ops of the configuration-boundary sweep (C18)
 var c18Follow = []string{"empty", "gap_2d", "nofeed", "fee_tx_uelys", "swap_in_p1_usdc_atom_D", "perp_open_long_t3_x5", "llp_open_t2_x5", "bond_lp1_D", "unbond_lp2_all", "mc_claim_lp1", "perp_bot_close_all", "llp_bot_close_all"}
 
+var c18FollowQuick = []string{"empty", "gap_2d", "nofeed", "fee_tx_uelys", "swap_in_p1_usdc_atom_D", "perp_bot_close_all"}
+
 var roots01 = []string{"R0", "R1"}
 var roots012 = []string{"R0", "R1", "R2"}
 var roots0123 = []string{"R0", "R1", "R2", "R3"}
@@ -165,8 +167,9 @@ func WConfig(prop, tier string) *Config {
 				{Name: "config-boundaries-depth3", Roots: []string{"R1"}, Ops: append(autoCfgOpNames(), c18Follow...), First: autoCfgOpNames(), Second: c18Follow, Depth: 3, Dev: 3},
 				{Name: "epoch-hooks-depth3", Roots: []string{"R11"}, Ops: []string{"gap_1h", "gap_2d", "gap_8d", "gap_40d", "nofeed", "nofeed_2d", "empty", "mc_claim_lp1", "claim_vesting_lp1", "vest_eden_lp1", "fee_tx_uelys", "unstake_elys_lp1", "cfg_es_provider0", "cfg_vest_blocks0"}, Depth: 3, Dev: 3}}
 		} else {
-			cfg.Phases = []Phase{{Name: "configs+ops-depth2", Roots: roots01, Ops: all, Depth: 2, Dev: 3},
-				{Name: "config-boundaries-depth2", Roots: []string{"R1"}, Ops: append(autoCfgOpNames(), c18Follow...), First: autoCfgOpNames(), Second: c18Follow, Depth: 2, Dev: 3},
+			cfg.Phases = []Phase{{Name: "configs+ops-depth2", Roots: []string{"R1"}, Ops: all, Depth: 2, Dev: 3},
+				{Name: "fresh-chain-configs-depth2", Roots: []string{"R0"}, Ops: all, First: cfgOps, Depth: 2, Dev: 3},
+				{Name: "config-boundaries-depth2", Roots: []string{"R1"}, Ops: append(autoCfgOpNames(), c18FollowQuick...), First: autoCfgOpNames(), Second: c18FollowQuick, Depth: 2, Dev: 3},
 				{Name: "epoch-hooks-depth2", Roots: []string{"R11"}, Ops: []string{"gap_1h", "gap_2d", "gap_8d", "gap_40d", "nofeed", "nofeed_2d", "empty", "mc_claim_lp1", "claim_vesting_lp1", "vest_eden_lp1", "fee_tx_uelys", "unstake_elys_lp1", "cfg_es_provider0", "cfg_vest_blocks0"}, Depth: 2, Dev: 3}}
 		}
 	case "C20":
